@@ -154,7 +154,10 @@ Init ==
                      ELSE <<>>
 
 \* register_evse(evse, voltage, phase_angle): appended to the ordered dict and to the two vectors.
-\* (Scope: station ids are distinct and no constraint has been added.)
+\* Scope: station ids are distinct and no constraint has been added (after add_constraint the call raises
+\* EVSERegistrationError).  OBSERVED, outside the properties and not modelled: registering an id that is already
+\* present replaces the EVSE object in place (its occupant is silently dropped) but still appends to the
+\* voltage / angle vectors, after which `voltages` / `phase_angles` raise IndexError.
 Register(s, f) ==
     /\ s \in Stations /\ ~Registered(reg, s)
     /\ Call("ok", FALSE, 0)
@@ -202,8 +205,9 @@ Unplug(s, x, f) ==
     /\ hist' = Log([op |-> "unplug", s |-> s, sess |-> x, form |-> f, res |-> UnplugRes(s, x),
                     warn |-> UnplugRes(s, x) \in {"vacant", "mismatch"}])
 
-\* unplug(station_id) without a session id (deprecated): a warning and EVSE.unplug() whoever is
-\* there - also on a vacant station, whose pilot returns to 0.
+\* unplug(station_id) without a session id (deprecated): a warning (a plain UserWarning, not a
+\* DeprecationWarning) and EVSE.unplug() whoever is there - also on a vacant station, whose pilot
+\* returns to 0.
 UnplugDep(s, f) ==
     /\ s \in Names
     /\ IF Registered(reg, s)
@@ -221,8 +225,9 @@ GetEv(s, f) ==
 
 \* update_pilots(pilots, i, period): row[j] is pilots[j, i], j in registration order.  The code
 \* loops over the stations in registration order and calls EVSE.set_pilot: a valid pilot is stored
-\* (on a VACANT station as well) and charges the occupant; the first invalid one raises
-\* InvalidRateError out of the loop.
+\* (on a VACANT station as well: it keeps that pilot, also when an EV is plugged in afterwards, until
+\* the next update_pilots or unplug) and charges the occupant - whether or not its demand is already
+\* met; the first invalid one raises InvalidRateError out of the loop.
 \* OBSERVED DEVIATION (outside the stated properties, modelled as the code does): the call is not
 \* atomic - the stations registered before the refusing one keep their new pilots and their EVs
 \* have been charged; the refusing station and all later ones are untouched (C13 per station).
